@@ -118,6 +118,52 @@ def main():
             if bad:
                 done(confirmed=True, input=dict(upstream=up, prefix=pre, strip_prefix=strip, request=url, upstream_behaviour=behaviour),
                      observed=dict(fetches=calls, violated=bad), clause="C17/C18: only the upstream is contacted, URL mapped faithfully, faults become 43")
+    # end to end through the REAL client: what reaches the upstream's socket is the mapped URL, character for character
+    for path, q in itertools.product(["/a%2Fb", "/x%3Fy", "/k%3Dv%26w", "/semi%3Bcolon", "/dots/%2e%2e/up", "/sp%20ace", "/pct%25", "/u%C3%A9", "/bad%FF", "/plain", "/a;b=1", "/~t/!$&'()*+,=:@"],
+                                     ["", "?q=%26%3D", "?a=b&c=d", "?x%20y"]):
+        url = "gemini://front.example" + path + q
+        try:
+            req = GeminiRequest.from_line(url)
+        except ValueError:
+            continue
+        tried += 1
+        h = ProxyHandler(upstream="gemini://backend.example:1966", prefix="/", strip_prefix=False, timeout=0.5)
+        seen = {}
+
+        async def go():
+            loop = asyncio.get_running_loop()
+
+            async def create_connection(factory, host=None, port=None, **kw):
+                seen["peer"] = (host, port)
+                proto = factory()
+
+                class T:
+                    out = b""
+
+                    def write(self, d):
+                        seen["line"] = seen.get("line", b"") + bytes(d)
+                        loop.call_soon(proto.data_received, b"20 text/gemini\r\nok\n")
+                        loop.call_soon(proto.connection_lost, None)
+
+                    def close(self):
+                        pass
+
+                    def is_closing(self):
+                        return False
+
+                    def get_extra_info(self, n, default=None):
+                        return default
+                proto.connection_made(T())
+                return T(), proto
+            loop.create_connection = create_connection
+            return await h._handle_async(req)
+        asyncio.run(go())
+        want = ("gemini://backend.example:1966" + req.path + ("?" + req.query if req.query else "") + "\r\n").encode("utf-8")
+        if seen.get("peer") != ("backend.example", 1966) or seen.get("line") != want:
+            done(confirmed=True, input=dict(upstream="gemini://backend.example:1966", prefix="/", request=url),
+                 observed=dict(contacted=seen.get("peer"), request_line_sent=repr(seen.get("line")), expected=repr(want),
+                               violated=["the request line sent to the upstream differs from the mapped URL (percent-escapes reinterpreted)"]),
+                 clause="C17: the path and query the client asked for are forwarded unaltered")
     done(confirmed=False, reason="no case in the bank violates a clause", tried=tried)
 
 
